@@ -43,6 +43,12 @@ func rulesC07(w *World, r *Report) {
 	w.ruleDecoderInverts(r, "C07.R6 the decoder rebuilds the encoded integer bit for bit", "long")
 	w.ruleKindNarrowing(r, "C07.R4 no silent narrowing in the kind dispatch")
 	w.ruleNoIntThroughFloat(r, "C07.R5 decoded integers never pass through a floating-point type")
+	includeIf(w, r, "C01", "every first octet of an int/long form reaches the int/long reader in every dispatcher", 8, func(o *Obligation) bool {
+		return strings.Contains(o.Key, "C01.R2") && (strings.HasSuffix(o.Key, "emitted by int") || strings.HasSuffix(o.Key, "emitted by long"))
+	})
+	includeIf(w, r, "C13", "a refused integer makes the encode call fail: element and key errors are not dropped", 5, func(o *Obligation) bool {
+		return strings.Contains(o.Key, "C13.R1")
+	})
 	r.note("spec table digest %s", specDigest())
 }
 
@@ -54,6 +60,9 @@ func rulesC08(w *World, r *Report) {
 	w.ruleDecoderInverts(r, "C08.R5 the decoder rebuilds the encoded number bit for bit", "double")
 	w.ruleFloatKinds(r, "C08.R3 float kinds use the double codec on both sides")
 	w.ruleNoValueRejection(r, "C08.R4 the float field reader rejects nothing but a failed read", []string{"Float32", "Float64"})
+	includeIf(w, r, "C01", "every first octet of a double form reaches the double reader in every dispatcher", 4, func(o *Obligation) bool {
+		return strings.Contains(o.Key, "C01.R2") && strings.HasSuffix(o.Key, "emitted by double")
+	})
 	r.note("spec table digest %s", specDigest())
 }
 
